@@ -26,7 +26,8 @@ pub struct FOut {
 
 impl FOut {
     pub fn hit(&mut self, sig: &str, detail: J) {
-        if self.hits.len() < 20 {
+        // at most 5 per signature (40 in all): a frequent class - a known finding, say - must not crowd out others
+        if self.hits.len() < 40 && self.hits.iter().filter(|h| h.signature == sig).count() < 5 {
             self.hits.push(Hit { signature: sig.to_string(), detail });
         }
     }
@@ -146,13 +147,20 @@ pub fn c01(seed: u64, budget: u64) -> FOut {
             out.distinct.insert(hash_of(&sorted));
         }
         out.runs += 1;
+        // a sixth of the multisets also says that the instance itself is down (its identity cannot renew: it goes
+        // defunct at that point of the batch) - what it knows about the others must not depend on where that is
+        let mut ups_p = ups.clone();
+        if g.chance(16) {
+            let at = g.below(ups_p.len() as u64 + 1) as usize;
+            ups_p.insert(at, if g.chance(70) { MMember { id: own, inc: *g.pick(&[0u16, 1, 65535]), state: 2 } } else { MMember { id: own, inc: 65535, state: 1 } });
+        }
         // reference: in generation order
         let base_seed = g.next();
         let mut reference: Option<BTreeMap<u16, (VId, u8, u16)>> = None;
         let mut ref_order = vec![];
         for perm in 0..6 {
             let mut inst = Inst::new(own, &big_cfg(), base_seed.wrapping_add(perm), 0, 255);
-            let mut l = ups.clone();
+            let mut l = ups_p.clone();
             if perm > 0 {
                 // shuffle + duplicate
                 for i in (1..l.len()).rev() {
@@ -353,6 +361,45 @@ pub fn history(
 pub fn c19(seed: u64, budget: u64) -> FOut {
     let mut out = FOut::default();
     out.rule = "seeded single-instance histories (300 calls each) in which the instance keeps learning older/newer identities of its own address; every Send destination of every call is compared with the instance's address, except relays to a target named by a peer (IndirectPing after PingReq, ForwardedAck after IndirectAck) and the destination the user passes to announce(); distinct = histories in which at least one own-address record was stored".into();
+    // the instance moved to an address nobody uses (beyond boundary B3, where the crate still keeps the rule): news
+    // about / a datagram from another identity of the NEW own address, a Down record of it - then it originates
+    // traffic of every kind: never to its own address
+    for variant in 0..3u8 {
+        let own = VId::new(9, 1, 0, 0);
+        let mut cfg = big_cfg();
+        cfg.periodic_announce_down = Some((7000 * MS, 2));
+        cfg.periodic_announce = Some((5000 * MS, 2));
+        let mut a = Inst::new(own, &cfg, seed ^ (0x190B + variant as u64), 0, 255);
+        run_real(&mut a.foca, &Input::ApplyMany(vec![MMember { id: VId::new(2, 0, 0, 0), inc: 0, state: 0 }, MMember { id: VId::new(3, 0, 0, 0), inc: 0, state: 0 }], false));
+        let new_own = VId::new(20, 0, 0, 0);
+        run_real(&mut a.foca, &Input::ChangeIdentity(new_own));
+        let mut all: Vec<Eff> = vec![];
+        match variant {
+            0 => { all.extend(run_real(&mut a.foca, &Input::ApplyMany(vec![MMember { id: VId::new(20, 1, 0, 0), inc: 0, state: 0 }, MMember { id: VId::new(4, 0, 0, 0), inc: 0, state: 0 }], true)).0); }
+            1 => { all.extend(run_real(&mut a.foca, &Input::Data(mk_dgram_ups(VId::new(20, 2, 0, 0), 0, new_own, foca::Message::Ping(1), &[MMember { id: VId::new(4, 0, 0, 0), inc: 0, state: 0 }]))).0); }
+            _ => { all.extend(run_real(&mut a.foca, &Input::ApplyMany(vec![MMember { id: VId::new(20, 1, 0, 0), inc: 0, state: 2 }, MMember { id: VId::new(4, 0, 0, 0), inc: 0, state: 0 }], true)).0); }
+        }
+        all.extend(run_real(&mut a.foca, &Input::ApplyMany(vec![MMember { id: VId::new(5, 0, 0, 0), inc: 0, state: 0 }], true)).0);
+        all.extend(run_real(&mut a.foca, &Input::Gossip).0);
+        all.extend(run_real(&mut a.foca, &Input::Broadcast).0);
+        for _ in 0..6 {
+            let tok = a.snapshot().token;
+            for t in [MTimer::Probe(tok), MTimer::Announce(tok), MTimer::AnnounceDown(tok)] {
+                let (e, _) = run_real(&mut a.foca, &Input::Timer(t));
+                for x in &e {
+                    if let Eff::Submit(t2 @ MTimer::Indirect(..), _) = x {
+                        all.extend(run_real(&mut a.foca, &Input::Timer(t2.clone())).0);
+                    }
+                }
+                all.extend(e);
+            }
+        }
+        out.runs += 1;
+        let bad: Vec<String> = all.iter().filter_map(|e| if let Eff::Send(d, b) = e { if d.a == 20 { Some(format!("{:?} to {d:?}", hdr_of(b).map(|h| h.message))) } else { None } } else { None }).collect();
+        if !bad.is_empty() {
+            out.hit("C19:own-address-destination:moved", J::s(format!("after moving to {new_own:?} (variant {variant}: 0 news about another identity of that address, 1 a datagram from one, 2 a Down record of one): datagrams to the own address: {bad:?}")));
+        }
+    }
     for h in 0..budget {
         let mut saw_own = false;
         let mut hits: Vec<(String, J)> = vec![];
@@ -538,12 +585,14 @@ pub fn c11(seed: u64, budget: u64) -> FOut {
             for (sinc, tinc) in [(5u16, 4u16), (5, 5), (5, 6), (0, 0), (65535, 65535)] {
                 for tgen in [0u16, 1] {
                     for stale in [false, true] {
+                      for alone in [false, true] {
                         let mut cfg = big_cfg();
                         cfg.notify_down_members = notify;
                         let mut inst = Inst::new(own, &cfg, seed, 0, 255);
                         let x_stored = VId::new(1, 1, 0, 0);
                         let x_timer = VId::new(1, tgen, 0, 0);
-                        let mut ups = vec![MMember { id: other, inc: 0, state: 0 }];
+                        // alone: the member is the LAST active one - the instance goes idle in the same call
+                        let mut ups = if alone { vec![] } else { vec![MMember { id: other, inc: 0, state: 0 }] };
                         if stored > 0 {
                             ups.push(MMember { id: x_stored, inc: sinc, state: stored - 1 });
                         }
@@ -554,9 +603,9 @@ pub fn c11(seed: u64, budget: u64) -> FOut {
                         let (effs, o) = run_real(&mut inst.foca, &input);
                         let post = inst.snapshot();
                         out.runs += 1;
-                        out.distinct.insert(hash_of(&(notify, stored, sinc, tinc, tgen, stale)));
+                        out.distinct.insert(hash_of(&(notify, stored, sinc, tinc, tgen, stale, alone)));
                         let should = !stale && (stored == 1 || stored == 2) && x_timer == x_stored && sinc == tinc;
-                        let row = format!("notify={notify} stored={stored} stored_inc={sinc} timer_inc={tinc} timer_gen={tgen} stale={stale}");
+                        let row = format!("notify={notify} stored={stored} stored_inc={sinc} timer_inc={tinc} timer_gen={tgen} stale={stale} last_active_member={alone}");
                         if o != Outcome::Done {
                             out.hit("C11:timer-error", J::s(row.clone()));
                         }
@@ -578,6 +627,7 @@ pub fn c11(seed: u64, budget: u64) -> FOut {
                         if out.samples.len() < 2 {
                             out.samples.push(J::s(format!("{input:?} on {:?}", pre.members)));
                         }
+                      }
                     }
                 }
             }
@@ -809,6 +859,28 @@ pub fn c11(seed: u64, budget: u64) -> FOut {
 pub fn c09(seed: u64, budget: u64) -> FOut {
     let mut out = FOut::default();
     out.rule = "seeded single-instance histories (300 calls, several generations per address incl. the instance's own); after every call: no two records share an address, no active record bears the own address, number of records <= distinct addresses told so far, every Rename(a,b) has b winning against a, the identity stored for an address only changes to one that wins (until the address is forgotten), an address loses its record only through the forget-timer of exactly the (Down) identity recorded, a datagram changes only records of addresses it names itself (sender, member section), and a datagram whose sender is not active after header processing (Down or superseded) leaves every other record untouched and reaches the handler with no item. distinct = histories with at least one Rename or own-address record".into();
+    // a defunct instance, a sender it holds Down (or superseded), every message kind incl. TurnUndead with an update
+    // section: the payload is discarded - no record added or changed, nothing queued
+    for superseded in [false, true] {
+        for kind in 0..3u8 {
+            let own = VId::new(9, 1, 0, 0);
+            let cfg = { let mut c = big_cfg(); c.notify_down_members = kind != 2; c };
+            let mut a = Inst::new(own, &cfg, seed ^ 0xDEF0, 0, 255);
+            let x_known = VId::new(2, 3, 0, 0);
+            run_real(&mut a.foca, &Input::ApplyMany(vec![MMember { id: x_known, inc: 0, state: if superseded { 0 } else { 2 } }, MMember { id: VId::new(5, 0, 0, 0), inc: 0, state: 0 }], false));
+            run_real(&mut a.foca, &Input::Leave);
+            let pre = a.snapshot();
+            let sender = if superseded { VId::new(2, 1, 0, 0) } else { x_known };
+            let msg = [foca::Message::TurnUndead, foca::Message::Gossip, foca::Message::TurnUndead][kind as usize].clone();
+            let d = mk_dgram_ups(sender, 0, own, msg.clone(), &[MMember { id: VId::new(7, 0, 0, 0), inc: 0, state: 0 }, MMember { id: VId::new(5, 0, 0, 0), inc: 0, state: 2 }]);
+            let (_, o) = run_real(&mut a.foca, &Input::Data(d));
+            let post = a.snapshot();
+            out.runs += 1;
+            if post.members != pre.members || post.updates != pre.updates {
+                out.hit("C09:payload-of-inactive-sender-applied", J::s(format!("a defunct instance applied the payload of a {msg:?} from {sender:?} ({}): {o:?}; members {:?} -> {:?}", if superseded { "superseded by the recorded identity" } else { "held Down" }, pre.members, post.members)));
+            }
+        }
+    }
     // the instance moved to an address nobody uses (change_identity to a different address: beyond boundary B3 of
     // the theorems, but the rule still holds there): another identity of the NEW own address is never stored
     // active and is refused as a sender; the OLD address is an ordinary address again
@@ -1163,7 +1235,18 @@ pub fn gen_rejected(g: &mut G, s: &MState) -> Input {
                 if let Ok(h) = dec_header(&mut &d[..]) {
                     if h.src.a != s.identity.a && h.message != foca::Message::Announce {
                         let mut h2 = h.clone();
-                        h2.dst = VId { a: 7, g: 0, k: 0, pad: 0 };
+                        // another address - or a former identity of ours (same address, another generation): only an
+                        // Announce may be accepted on the address alone
+                        h2.dst = if g.chance(50) { VId { a: 7, g: 0, k: 0, pad: 0 } } else { VId { g: s.identity.g.wrapping_add(1 + g.below(3) as u16), ..s.identity } };
+                        if g.chance(30) {
+                            let mut nb = header_bytes(&foca::Header { message: foca::Message::TurnUndead, ..h2.clone() });
+                            if g.chance(30) {
+                                nb.extend([0u8, 0]);
+                            }
+                            if nb.len() <= s.cfg.max_packet_size as usize {
+                                return Input::Data(nb);
+                            }
+                        }
                         let mut nb = header_bytes(&h2);
                         let rest = &d[header_bytes(&h).len()..];
                         if rest.len() != 1 {
@@ -1269,10 +1352,39 @@ pub fn gen_rejected(g: &mut G, s: &MState) -> Input {
     }
 }
 
+/// a TurnUndead addressed to a FORMER identity of the instance (same address, older generation) from an active
+/// member or from a member held Down: nobody declared the current identity down - nothing may happen
+pub fn stale_turn_undead(seed: u64, out: &mut FOut, signature: &str) {
+    for kind in [0u8, 1] {
+        for from_down in [false, true] {
+            for tail in [false, true] {
+                let own = VId::new(9, 2, kind, 0);
+                let former = VId::new(9, 1, kind, 0);
+                let cfg = { let mut c = big_cfg(); c.notify_down_members = true; c };
+                let mut a = Inst::new(own, &cfg, seed ^ 0x57A1E, 0, 255);
+                let peer = VId::new(2, 0, 0, 0);
+                run_real(&mut a.foca, &Input::ApplyMany(vec![MMember { id: peer, inc: 0, state: if from_down { 2 } else { 0 } }, MMember { id: VId::new(3, 0, 0, 0), inc: 0, state: 0 }], false));
+                let pre = a.snapshot();
+                let mut d = header_bytes(&foca::Header { src: peer, src_incarnation: 0, dst: former, message: foca::Message::TurnUndead });
+                if tail {
+                    d.extend([0u8, 0]);
+                }
+                let (effs, o) = run_real(&mut a.foca, &Input::Data(d));
+                let post = a.snapshot();
+                out.runs += 1;
+                if !effs.is_empty() || post != pre {
+                    out.hit(signature, J::s(format!("TurnUndead from {peer:?} ({}) addressed to the former identity {former:?} of {own:?}: {o:?}, effects {effs:?}, state changed in {:?}", if from_down { "held Down" } else { "active" }, pre.diff(&post))));
+                }
+            }
+        }
+    }
+}
+
 /// C17: twin runs with and without rejected inputs
 pub fn c17(seed: u64, budget: u64) -> FOut {
     let mut out = FOut::default();
     crate::eqid::check(seed, &mut out);
+    stale_turn_undead(seed, &mut out, "C17:rejected-input-leaves-trace");
     out.rule = "twin runs on the real crate: a seeded base history (200 calls) is replayed on a second identical instance with rejected inputs of every class (oversize, undecodable header, member list that stops decoding after some good members, own identity/address source, wrong destination, one trailing byte, stale-epoch timers, NotUndead, SameIdentity, InvalidConfig, empty add_broadcast) inserted at random points; every effect list and result of the base inputs and the final full state (incl. RNG position) must be identical, and each inserted input must itself produce no effect; also the same history twice gives identical streams; and, with an identity type whose PartialEq ignores a metadata field, a change_identity call rejected with SameIdentity leaves the stored identity (metadata included) untouched. distinct = twin runs with at least 5 insertions of at least 3 classes".into();
     // add_broadcast refused with DataTooBig through the u16 framing limit (an item between 65536 and max_packet_size
     // bytes, packets larger than 65535): nothing may have happened - the handler must not even have seen the item
@@ -1444,10 +1556,19 @@ pub fn c14(seed: u64, budget: u64) -> FOut {
                     0 => { run_real(&mut inst.foca, &Input::Gossip); }
                     1 => { run_real(&mut inst.foca, &Input::Announce(active[g.below(active.len() as u64) as usize])); }
                     2 => { run_real(&mut inst.foca, &Input::Broadcast); }
-                    _ => {}
+                    _ => {
+                        // identity changes between rounds (same address, a generation nobody talks about): the member
+                        // set is the same, the rotation must go on where it was
+                        if g.chance(25) {
+                            let cur = inst.snapshot().identity;
+                            run_real(&mut inst.foca, &Input::ChangeIdentity(VId { g: cur.g + 10, ..cur }));
+                            run_real(&mut inst.foca, &Input::ApplyMany(vec![], false));
+                        }
+                    }
                 }
             }
-            let (effs, _o) = run_real(&mut inst.foca, &Input::Timer(MTimer::Probe(pre.token)));
+            let tok_now = inst.snapshot().token; // an identity change above moved the epoch
+            let (effs, _o) = run_real(&mut inst.foca, &Input::Timer(MTimer::Probe(tok_now)));
             let mut this_round = vec![];
             for e in &effs {
                 if let Eff::Send(d, b) = e {
@@ -2018,6 +2139,8 @@ pub fn c15(seed: u64, budget: u64) -> FOut {
 pub fn c16(seed: u64, budget: u64) -> FOut {
     let mut out = FOut::default();
     out.rule = "seeded histories (300 calls) with table-driven handlers (4 invalidation modes, random recipient masks), items of 1..40 bytes, all packet sizes/kinds; a ledger of accepted items (bytes, key, transmissions left) is kept from add_broadcast results, handler calls and emitted custom sections: every item on the wire is a pending one, whole and exactly framed, on at most max_transmissions datagrams, never on Announce/TurnUndead, never to a member the handler refuses, never after a newly accepted key invalidated it; every datagram is delivered to a fresh receiver whose handler must see exactly the framed items, in order, once each, with the sender's identity; broadcast() emits only Broadcast datagrams without member section to at most num_indirect_probes members, nothing when the backlog is empty. distinct = histories with at least 5 custom items on the wire".into();
+    // a handler that accepts the same item again (outside the model's handler, real crate only)
+    crate::altid::check_reaccept(seed, &mut out);
     // exact-fit: an item of L bytes with L, L+1, L+2, L+3 bytes of room after the header - the frame needs L + 2:
     // with less the item stays in the backlog untouched, with enough it is sent whole; never a panic
     for l in [1usize, 2, 5, 17, 40] {
@@ -2407,6 +2530,69 @@ pub fn c12(seed: u64, budget: u64) -> FOut {
                     out.hit(
                         "C12:aborted-round-not-abandoned",
                         J::s(format!("round with target {target:?} aborted {} its indirect stage by {what}; first round afterwards: {o3:?}, newly Suspect {newly_suspect:?}, suspicion timeouts scheduled {timeouts}", if after_indirect { "after" } else { "before" })),
+                    );
+                }
+            }
+        }
+    }
+    // set_config in the middle of a round (another fan-out, other transmissions): a configuration change is neither
+    // going idle nor changing identity - the round goes on: evidence already received still counts, evidence that
+    // arrives afterwards counts, and without evidence the target is suspected with exactly one timeout
+    for before_indirect in [true, false] {
+        for evidence in 0..3u8 {
+            // 0 none, 1 Ack before set_config, 2 Ack after set_config
+            let a_id = VId::new(50, 1, 0, 0);
+            let mut cfg = big_cfg();
+            cfg.num_indirect_probes = 2;
+            let mut a = Inst::new(a_id, &cfg, seed ^ (0x5E7C + evidence as u64), 0, 255);
+            let members: Vec<MMember> = (1..=4u16).map(|i| MMember { id: VId::new(i, 0, 0, 0), inc: 0, state: 0 }).collect();
+            run_real(&mut a.foca, &Input::ApplyMany(members.clone(), false));
+            // one acked round first, so that probe numbers are not at their initial value
+            for round in 0..2 {
+                let tok = a.snapshot().token;
+                let (e, _) = run_real(&mut a.foca, &Input::Timer(MTimer::Probe(tok)));
+                let ping = e.iter().find_map(|x| if let Eff::Send(d, b) = x { hdr_of(b).and_then(|h| if let Mg::Ping(k) = h.message { Some((*d, k)) } else { None }) } else { None });
+                let ind = e.iter().find_map(|x| if let Eff::Submit(t @ MTimer::Indirect(..), _) = x { Some(t.clone()) } else { None });
+                let (Some((t, k)), Some(it)) = (ping, ind) else { break };
+                if round == 0 {
+                    run_real(&mut a.foca, &Input::Data(mk_dgram(t, 0, a_id, Mg::Ack(k))));
+                    run_real(&mut a.foca, &Input::Timer(it));
+                    continue;
+                }
+                out.runs += 1;
+                out.distinct.insert(hash_of(&("set_config-mid-round", before_indirect, evidence)));
+                let mut reqs = 0usize;
+                if !before_indirect {
+                    let (e2, _) = run_real(&mut a.foca, &Input::Timer(it.clone()));
+                    reqs += e2.iter().filter(|x| matches!(x, Eff::Send(_, b) if hdr_of(b).map(|h| matches!(h.message, Mg::PingReq { .. })).unwrap_or(false))).count();
+                }
+                if evidence == 1 {
+                    run_real(&mut a.foca, &Input::Data(mk_dgram(t, 0, a_id, Mg::Ack(k))));
+                }
+                let mut c2 = cfg.clone();
+                c2.num_indirect_probes = 3;
+                c2.max_transmissions = 4;
+                let (_, oc) = run_real(&mut a.foca, &Input::SetConfig(c2));
+                if evidence == 2 {
+                    run_real(&mut a.foca, &Input::Data(mk_dgram(t, 0, a_id, Mg::Ack(k))));
+                }
+                if before_indirect {
+                    let (e2, _) = run_real(&mut a.foca, &Input::Timer(it));
+                    reqs += e2.iter().filter(|x| matches!(x, Eff::Send(_, b) if hdr_of(b).map(|h| matches!(h.message, Mg::PingReq { .. })).unwrap_or(false))).count();
+                }
+                let tok = a.snapshot().token;
+                let (e3, o3) = run_real(&mut a.foca, &Input::Timer(MTimer::Probe(tok)));
+                let s3 = a.snapshot();
+                let suspected = s3.members.iter().any(|m| m.id == t && m.state == 1);
+                let timeouts = e3.iter().filter(|x| matches!(x, Eff::Submit(MTimer::SuspectToDown(i, _, _), _) if *i == t)).count();
+                let acked_in_time = evidence != 0;
+                // indirect requests go out iff no valid Ack had arrived when the indirect stage fired
+                let want_reqs = if before_indirect { evidence == 0 } else { true };
+                let ok = oc == Outcome::Done && o3 == Outcome::Done && suspected == !acked_in_time && timeouts == (!acked_in_time) as usize && (reqs > 0) == want_reqs;
+                if !ok {
+                    out.hit(
+                        "C12:set_config-disturbs-the-round",
+                        J::s(format!("set_config (fan-out 2 -> 3) {} the indirect stage of a round probing {t:?}, evidence case {evidence} (0 none, 1 Ack before, 2 Ack after): set_config {oc:?}, next round {o3:?}, PingReq sent {reqs}, target suspected {suspected}, timeouts {timeouts}", if before_indirect { "before" } else { "after" })),
                     );
                 }
             }
